@@ -108,7 +108,9 @@ fn render_layout(toks: &[Tok], enders: &[String], rng: &mut Rng, mode: u8) -> St
                 continue;
             }
             if prev_is_ender && rng.chance(1, 2) {
-                s.push_str(["\n", "\n", " \n", "\r\n", " // c\n", "\n\n  \n", "\n// é\n", " // path C:\\tmp\\\n", " //\n", "\n// \"quoted\" // nested \\\n", " \\\n\n", " \\\n  \t\n", "\\\n\r\n", " \\\n \\\n\n"][rng.below(14)]);
+                s.push_str(["\n", "\n", " \n", "\r\n", " // c\n", "\n\n  \n", "\n// é\n", " // path C:\\tmp\\\n", " //\n", "\n// \"quoted\" // nested \\\n", " \\\n\n", " \\\n  \t\n", "\\\n\r\n", " \\\n \\\n\n",
+                    // a continuation, then a line holding only a comment: that line's end is the terminator
+                    " \\\n// only a comment\n", "\\\n  // é\n", " \\\n\t// c \\\n", " \\\n//\n\n", "\n// a\n// b\n", " // t\n  // own line\n"][rng.below(20)]);
             } else {
                 s.push_str([";", " ;", "; ", ";\n", " ; // c\n"][rng.below(5)]);
             }
@@ -161,6 +163,11 @@ pub fn c06(ctx: &Ctx) -> PropResult {
     let enders: Vec<String> = ["Identifier", "Number", "StringLiteral", "True", "False", "Null", "RightParen", "RightBracket", "RightBrace", "Break", "Continue", "Return"].iter().map(|s| s.to_string()).collect();
     let mut rng = mk_rng(ctx.seed, 6);
     let mut programs = corpus_programs();
+    // identifiers that begin with a keyword, at the start of lines after every statement-ending token
+    {
+        let kws: Vec<String> = KEYWORDS_DOC.iter().map(|k| k.to_string()).collect();
+        programs.extend(crate::props6::keyword_prefixed_identifier_family(&kws));
+    }
     let np = if ctx.quick() { 300 } else { 3_000 };
     for _ in 0..np {
         let mut g = Gen::new(&mut rng);
@@ -320,7 +327,7 @@ pub fn c06(ctx: &Ctx) -> PropResult {
     let stats = run_cases(&ctx.driver, cases, &oracle, &no_known, ctx.threads);
     PropResult {
         stats,
-        rule: format!("{} programs (the repository's tests and examples, generated programs) -> token stream -> {} random admissible renderings each: at every token boundary one of nothing (only next to a bracket or comma), blanks, tab, CR, backslash-newline, and - where the previous token cannot end a statement - newline, CRLF, blank lines or a // comment with non-ASCII text; every terminator as newline, CRLF, comment+newline or ';'; every keyword independently upper or lower case; leading and trailing blank/comment material; implementation-only oracle: same tokens (kinds, literals, text) and same behaviour as the canonical layout; the variant is also run through the model; converse clause: for every token kind a newline (or comment+newline) after it yields a terminator exactly for the kinds of the extracted ender set; the fourth extreme layout leaves out every separator the lexical grammar does not need (a number directly before a word, words next to operators)", programs.len(), per),
+        rule: format!("{} programs (the repository's tests and examples, generated programs) -> token stream -> {} random admissible renderings each: at every token boundary one of nothing (only next to a bracket or comma), blanks, tab, CR, backslash-newline, and - where the previous token cannot end a statement - newline, CRLF, blank lines or a // comment with non-ASCII text; every terminator as newline, CRLF, comment+newline or ';'; every keyword independently upper or lower case; leading and trailing blank/comment material; implementation-only oracle: same tokens (kinds, literals, text) and same behaviour as the canonical layout; the variant is also run through the model; converse clause: for every token kind a newline (or comment+newline) after it yields a terminator exactly for the kinds of the extracted ender set; the fourth extreme layout leaves out every separator the lexical grammar does not need (a number directly before a word, words next to operators); terminators made of a continuation and comment-only lines; names that begin with a keyword at line starts", programs.len(), per),
         exhaustive: false,
         notes: vec![],
     }
@@ -632,6 +639,18 @@ pub fn c09(ctx: &Ctx) -> PropResult {
         cases.push(Case::new(Kind::Parse, p.to_string()).tag("documented-form").aux("accept".into()));
         cases.push(Case::new(Kind::Parse, recase_keywords(p, &mut rng, true)).tag("documented-form-lower-case").aux("accept".into()));
     }
+    // valid programs stay valid at any depth of nesting and any length of an ELSE IF chain, and whatever words that
+    // merely begin with a keyword they use as names
+    for p in crate::props6::deep_nesting_family() {
+        cases.push(Case::new(Kind::Parse, p.clone()).tag("deep-nesting").aux("accept".into()));
+        cases.push(Case::new(Kind::Run, p).tag("deep-nesting-run"));
+    }
+    {
+        let kws: Vec<String> = KEYWORDS_DOC.iter().map(|k| k.to_string()).collect();
+        for p in crate::props6::keyword_prefixed_identifier_family(&kws) {
+            cases.push(Case::new(Kind::Parse, p).tag("keyword-prefixed-identifier").aux("accept".into()));
+        }
+    }
     // rejections
     for p in [
         "RETURN 1",
@@ -718,7 +737,7 @@ pub fn c09(ctx: &Ctx) -> PropResult {
     let stats = run_cases(&ctx.driver, cases, &oracle, &no_known, ctx.threads);
     PropResult {
         stats,
-        rule: "random derivations of the documented statement grammar (expression statements, IF / ELSE IF / ELSE, REPEAT TIMES, REPEAT UNTIL, FOR EACH, PROCEDURE and EXPORT PROCEDURE with 0-3 parameters, RETURN valued and bare, BREAK / CONTINUE inside loops, the three IMPORT forms, nested bare blocks; depth <= 3, <= 3 statements per block) with an independent terminator choice per statement (newline, ';', '; ', blank line, directly before '}' or the end of input) and block-opening layout; the documented forms of the property's text verbatim; rejection: 31 fixed misplaced / unbalanced / missing-operand programs and every random single bracket deletion / insertion in a valid derivation that a bracket counter proves unbalanced; implementation-only oracle: accepted / rejected with >= 1 diagnostic; syntax trees and diagnostic labels compared with the model".into(),
+        rule: "random derivations of the documented statement grammar (expression statements, IF / ELSE IF / ELSE, REPEAT TIMES, REPEAT UNTIL, FOR EACH, PROCEDURE and EXPORT PROCEDURE with 0-3 parameters, RETURN valued and bare, BREAK / CONTINUE inside loops, the three IMPORT forms, nested bare blocks; depth <= 3, <= 3 statements per block) with an independent terminator choice per statement (newline, ';', '; ', blank line, directly before '}' or the end of input) and block-opening layout; the documented forms of the property's text verbatim; rejection: 31 fixed misplaced / unbalanced / missing-operand programs and every random single bracket deletion / insertion in a valid derivation that a bracket counter proves unbalanced; implementation-only oracle: accepted / rejected with >= 1 diagnostic; syntax trees and diagnostic labels compared with the model; nesting depths 1 .. 200 of every block kind and expression kind, ELSE IF chains and flat programs of 1 .. 300 parts (accepted and run); names that begin with a keyword".into(),
         exhaustive: false,
         notes: vec![],
     }
@@ -835,6 +854,10 @@ pub fn c11(ctx: &Ctx) -> PropResult {
             }
         }
     }
+    // every library procedure, every argument position, every kind of value there (written with and without commas)
+    for src in crate::props6::native_argument_label_family(&extract::registry()) {
+        cases.push(run_case(src, "native-argument-error"));
+    }
     // every kind of lexical / syntactic error as the very last thing of the input (no final newline), after ASCII and
     // after multi-byte text
     for last in ["\\", "!", "=", "\"open", "\"bad \\q", "\"bad \\", "#", "é", "😀", "(", "[", "{", "x <- ", "x <- 1 +", "IF (", "f(1,", "REPEAT", "NOT", "x[", "PROCEDURE", "\"a\\"] {
@@ -941,7 +964,7 @@ pub fn c11(ctx: &Ctx) -> PropResult {
     let stats = run_cases(&ctx.driver, cases, &oracle, &no_known, ctx.threads);
     PropResult {
         stats,
-        rule: "22 failing expressions (every runtime-error kind: arithmetic and type errors, division / MOD by zero, undefined variable / procedure, index out of range / of wrong type / on a non-indexable, wrong argument count, argument casts, INSERT / REMOVE range) x 10 expression / statement contexts (nested in arithmetic, conditions, list literals, call arguments, loops, recursion depth 3), loop-header and indexed-assignment errors, 17 lexical / syntactic errors, random programs; every source prefixed with random noise (comments with 2-, 3- and 4-byte characters, blank lines, strings containing newlines); implementation-only oracle: every label inside the source on character boundaries, the labelled text is the construct the property names for that error kind, earlier output intact; error spans compared with the model; non-trivial = a diagnostic was produced".into(),
+        rule: "22 failing expressions (every runtime-error kind: arithmetic and type errors, division / MOD by zero, undefined variable / procedure, index out of range / of wrong type / on a non-indexable, wrong argument count, argument casts, INSERT / REMOVE range) x 10 expression / statement contexts (nested in arithmetic, conditions, list literals, call arguments, loops, recursion depth 3), loop-header and indexed-assignment errors, 17 lexical / syntactic errors, random programs; every source prefixed with random noise (comments with 2-, 3- and 4-byte characters, blank lines, strings containing newlines); implementation-only oracle: every label inside the source on character boundaries, the labelled text is the construct the property names for that error kind, earlier output intact; error spans compared with the model; non-trivial = a diagnostic was produced; every library procedure x argument position x twelve values (some written with commas), the other arguments type-correct, plain and written with commas".into(),
         exhaustive: false,
         notes: vec![],
     }
